@@ -1308,6 +1308,127 @@ pub fn check_seac(c: &SeacCase, rec: &mut Rec) -> CaseResult {
 }
 
 // ------------------------------------------------------------------------------------------
+// libFuzzer input decoding (target c18_type2)
+
+/// What one fuzz input decodes to: a case of one of the three random font sections
+/// (`cff-name-keyed`, `cff-cid-keyed`, `cff2`, with the optional container-layout seed) or a
+/// case of the `cff-seac` section. The first input byte selects the section.
+#[derive(Clone, Debug)]
+pub enum FuzzCase {
+    Font(LaidOutCase),
+    Seac(SeacCase),
+}
+
+/// `prop_oneof![w0 => lo0..=hi0, w1 => lo1..=hi1, ...]` over integer ranges: one selector byte
+/// picks the alternative with (about) the strategy's weights, a second value picks inside it
+/// (no second value is consumed for a `Just`). Exhausted input gives the first alternative's
+/// lowest value, which is the smallest one throughout.
+fn u_alts(u: &mut arbitrary::Unstructured<'_>, alts: &[(u32, u32, u32)]) -> arbitrary::Result<u32> {
+    let total: u32 = alts.iter().map(|a| a.0).sum();
+    let mut k = u.int_in_range(0..=total - 1)?;
+    for (w, lo, hi) in alts {
+        if k < *w {
+            return if lo == hi { Ok(*lo) } else { u.int_in_range(*lo..=*hi) };
+        }
+        k -= *w;
+    }
+    unreachable!()
+}
+
+/// `proptest::bool::weighted(num/den)`; exhausted input gives `false`.
+fn u_chance(u: &mut arbitrary::Unstructured<'_>, num: u32, den: u32) -> arbitrary::Result<bool> {
+    Ok(u.int_in_range(0..=den - 1)? >= den - num)
+}
+
+fn u_font_case(u: &mut arbitrary::Unstructured<'_>, kind: Kind) -> arbitrary::Result<LaidOutCase> {
+    // same alternatives, ranges and post-processing as `case_strategy(kind)`; the fields that
+    // shape the glyph programs come first so that short inputs already reach them
+    let seed: u64 = u.arbitrary()?;
+    let nglyphs = u_alts(u, &[(3, 1, 3), (2, 4, 8)])? as usize;
+    let grid = u_alts(u, &[(3, 0, 0), (2, 1, 1), (1, 2, 2), (2, 3, 3)])? as u8;
+    let hints = u_chance(u, 6, 10)?;
+    let width = u_chance(u, 5, 10)?;
+    let free_forms = u_chance(u, 6, 10)?;
+    let nfrags = u_alts(u, &[(2, 0, 0), (3, 1, 5)])? as usize;
+    let cuts = u_alts(u, &[(2, 0, 0), (3, 1, 4)])? as usize;
+    let deep = u_chance(u, 2, 25)?;
+    let max_segs = u_alts(u, &[(3, 1, 8), (2, 9, 30)])? as usize;
+    let pad = u_alts(u, &[(80, 0, 0), (16, 1, 4), (1, 5, 8)])? as u8;
+    let nfd = u.int_in_range(1usize..=3)?;
+    let variable = u_chance(u, 6, 10)?;
+    let axes = u.int_in_range(1usize..=3)?;
+    let block_order: u8 = u.arbitrary()?;
+    let off_size = u_alts(u, &[(3, 1, 1), (1, 2, 4)])? as u8;
+    let header_extra = u_alts(u, &[(3, 0, 0), (1, 1, 3)])? as u8;
+    let via_sfnt = u_chance(u, 1, 10)?;
+    // proptest::option::weighted(0.5, any::<u64>())
+    let layout_seed = if u_chance(u, 1, 2)? { Some(u.arbitrary::<u64>()?) } else { None };
+    let nfd = match kind {
+        Kind::NameKeyed => 1,
+        Kind::Cid => nfd.max(2).min(3),
+        Kind::Cff2 => nfd,
+    };
+    Ok((
+        Case {
+            kind,
+            seed,
+            nglyphs,
+            grid,
+            hints,
+            width: width && kind != Kind::Cff2,
+            free_forms,
+            nfrags,
+            cuts,
+            deep,
+            max_segs,
+            pad,
+            nfd,
+            variable: variable && kind == Kind::Cff2,
+            axes,
+            block_order,
+            off_size,
+            header_extra,
+            via_sfnt,
+        },
+        layout_seed,
+    ))
+}
+
+fn u_seac_case(u: &mut arbitrary::Unstructured<'_>) -> arbitrary::Result<SeacCase> {
+    // same as `seac_strategy`
+    Ok(SeacCase {
+        seed: u.arbitrary()?,
+        hints: u.arbitrary()?,
+        component_width: u.arbitrary()?,
+        seac_width: u.arbitrary()?,
+        charset: u.int_in_range(0u8..=2)?,
+        free_forms: u.arbitrary()?,
+        subr_cuts: u_alts(u, &[(2, 0, 0), (3, 1, 3)])? as u8,
+    })
+}
+
+/// Structure-aware decoding of a libFuzzer input. Byte 0 selects the section with about the
+/// weights of `C18::run` (8 : 6 : 6 : 1 for name-keyed : CID : CFF2 : seac); the rest is read
+/// field by field with the ranges of `case_strategy` / `seac_strategy`. Every input decodes
+/// (`Unstructured` pads exhausted input with zeros = the smallest value of every field).
+pub fn case_from_bytes(data: &[u8]) -> arbitrary::Result<FuzzCase> {
+    let mut u = arbitrary::Unstructured::new(data);
+    Ok(match u.int_in_range(0u8..=20)? {
+        0..=7 => FuzzCase::Font(u_font_case(&mut u, Kind::NameKeyed)?),
+        8..=13 => FuzzCase::Font(u_font_case(&mut u, Kind::Cid)?),
+        14..=19 => FuzzCase::Font(u_font_case(&mut u, Kind::Cff2)?),
+        _ => FuzzCase::Seac(u_seac_case(&mut u)?),
+    })
+}
+
+pub fn check_fuzz_case(c: &FuzzCase, rec: &mut Rec) -> CaseResult {
+    match c {
+        FuzzCase::Font(l) => check_case(l, rec),
+        FuzzCase::Seac(s) => check_seac(s, rec),
+    }
+}
+
+// ------------------------------------------------------------------------------------------
 // deterministic enumerations: nesting depth, bias bands, stack limits
 
 fn simple_font(kind: Kind, charstrings: Vec<Vec<u8>>, gsubrs: Vec<Vec<u8>>, lsubrs: Vec<Vec<u8>>) -> Vec<u8> {
